@@ -34,6 +34,10 @@ def itml_ghost(v):
   g = v.gamma
   if z3.is_expr(g):
     facts.append(g > 0)
+  if v.self.prior == 'covariance':
+    # for prior='covariance' the positive definiteness of the pseudo-inverse covariance is a ghost hypothesis (strict_pd=True makes
+    # _initialize_metric_mahalanobis raise LinAlgError otherwise; the PD of the matrix it then returns is not under a value-level contract)
+    facts.append(TH.pd(v.A.term) if v.has('A') and not v.has('it') else z3.BoolVal(True))
   return z3.And(*facts)
 
 
